@@ -3,7 +3,7 @@ hash context of every accepted packet == the received octets; (2) end to end: th
 PGPy must verify; every single-bit flip of the signed region of an accepted signature must not verify."""
 import warnings
 
-from .common import Driver, hx, unhx, hn, unhn, outcome, load_repo
+from .common import Driver, hx, unhx, hn, unhn, outcome, outcome_timed, load_repo
 from . import sigcommon as S
 from .c02 import Env
 
@@ -150,11 +150,12 @@ def _run(env):
         for pos in region:
             for bit in range(8):
                 mut = bytearray(pkt); mut[pos] ^= 1 << bit
-                o = outcome(lambda: bool(pub.verify(doc, pgpy.PGPSignature.from_blob(bytes(mut)))))
+                o = outcome_timed(1.0, lambda: bool(pub.verify(doc, pgpy.PGPSignature.from_blob(bytes(mut)))))
+                if o == ('raise', 'CallTimeout'): ctx.dist['bitflip-parse-timeouts'] = ctx.dist.get('bitflip-parse-timeouts', 0) + 1
                 ctx.case('bitflip', (pkt[:20], pos, bit), sample={'pos': pos - hdr, 'bit': bit, 'outcome': repr(o)})
-                if o != ('ok', True) and (pos + bit) % 5 == 0:
+                if o != ('ok', True) and o != ('raise', 'CallTimeout') and (pos + bit) % 5 == 0:
                     import copy as _copy
-                    o = outcome(lambda: bool(pub.verify(doc, _copy.copy(pgpy.PGPSignature.from_blob(bytes(mut))))))
+                    o = outcome_timed(1.0, lambda: bool(pub.verify(doc, _copy.copy(pgpy.PGPSignature.from_blob(bytes(mut))))))
                 if o == ('ok', True):
                     ctx.fail('bitflip', 'a signature with a flipped bit in the signed region still verifies',
                              {'op': 'flip', 'sig': pkt.hex(), 'pos': pos, 'bit': bit})
@@ -166,7 +167,7 @@ def _run(env):
         for newhl in {max(hl - 1, 0), hl + 1, max(hl - 3, 0), hl + 2}:
             if newhl == hl: continue
             mut = bytearray(pkt); mut[hdr + 4:hdr + 6] = newhl.to_bytes(2, 'big')
-            o = outcome(lambda: bool(pub.verify(doc, pgpy.PGPSignature.from_blob(bytes(mut)))))
+            o = outcome_timed(1.0, lambda: bool(pub.verify(doc, pgpy.PGPSignature.from_blob(bytes(mut)))))
             ctx.case('hashed-length', (pkt[:20], newhl))
             if o == ('ok', True):
                 ctx.fail('hashed-length', 'signature verifies with an altered hashed-area length', {'op': 'hl', 'sig': pkt.hex(), 'newhl': newhl})
